@@ -64,6 +64,12 @@ func sleepOr(d time.Duration, over <-chan struct{}) bool {
 }
 
 func (r *reqRun) endAction(end int, over <-chan struct{}) {
+	if end == endReset || end == endClose {
+		// from here on the server cannot deliver a verdict on this stream
+		r.w.mu.Lock()
+		r.aborted = true
+		r.w.mu.Unlock()
+	}
 	switch end {
 	case endCloseWrite:
 		r.cliEnd.CloseWrite()
@@ -178,6 +184,18 @@ func (r *reqRun) client() {
 				}
 			}
 			r.logSeg(seg{Wire: len(buf), Full: true, Raw: true})
+		case opWFCut:
+			buf = wfFrame(buf[:0], op.Size, 0x41)
+			buf = buf[:len(buf)-op.Cut]
+			r.logSeg(seg{Wire: len(buf), Data: op.Size - op.Cut, Raw: true})
+		}
+		for f := spec.DD.Frag; f > 0 && len(buf) > f; buf = buf[f:] {
+			if _, err := r.cliEnd.Write(buf[:f]); err != nil {
+				return
+			}
+			if sleepOr(time.Nanosecond, over) {
+				return
+			}
 		}
 		if _, err := r.cliEnd.Write(buf); err != nil {
 			return
@@ -220,21 +238,29 @@ func runScenario(sc *scenario, fatalf func(string, ...any)) *result {
 			if e.Class == clMalformed {
 				continue
 			}
-			if ref, dup := w.owner[string(e.Bytes)]; dup {
+			key := string(canon(e.Bytes, p.ID))
+			if ref, dup := w.owner[key]; dup {
 				if ref[0] != idx {
 					fatalf("harness: address %s occurs in two requests", e.Str)
 				}
+				if o := &spec.Entries[ref[1]]; o.Public != e.Public || o.Dialable != e.Dialable {
+					fatalf("harness: two spellings of one address with different classes: %s / %s", o.Str, e.Str)
+				}
 				continue
 			}
-			w.owner[string(e.Bytes)] = [2]int{idx, i}
+			w.owner[key] = [2]int{idx, i}
 		}
 	}
 	if sc.CanDial != nil {
 		w.canDial = sc.CanDial
 	} else {
 		w.canDial = func(a ma.Multiaddr) bool {
-			ref, ok := w.owner[string(a.Bytes())]
-			return ok && w.reqs[ref[0]].spec.Entries[ref[1]].Dialable
+			for _, p := range sc.Peers {
+				if ref, ok := w.owner[string(canon(a.Bytes(), p.ID))]; ok {
+					return w.reqs[ref[0]].spec.Entries[ref[1]].Dialable
+				}
+			}
+			return false
 		}
 	}
 
@@ -327,6 +353,23 @@ func runScenario(sc *scenario, fatalf func(string, ...any)) *result {
 	// a handler that is still running keeps its client goroutine alive: cut the streams
 	for _, i := range res.unfinished {
 		w.reqs[i].srvEnd.Reset()
+	}
+	// every harness goroutine must be gone before the bubble's root returns (virtual
+	// time stops with it)
+	for i := 0; i < 100; i++ {
+		synctest.Wait()
+		busy := false
+		w.mu.Lock()
+		for _, r := range w.reqs {
+			if r.launched >= 0 && !r.cliDone {
+				busy = true
+			}
+		}
+		w.mu.Unlock()
+		if !busy {
+			break
+		}
+		time.Sleep(time.Second)
 	}
 	return res
 }
